@@ -179,6 +179,18 @@ func buildAnonymousFieldInfo(info *fieldInfo, lowerCaseName string, ft reflect.T
 			children: make(map[string]*fieldInfo),
 			mapField: elemField,
 		}
+	case reflect.Array, reflect.Slice:
+		// like a named field: the keys inside the elements are matched case-insensitively
+		elemField, err := buildFieldsInfo(mapping.Deref(ft.Elem()), fullName)
+		if err != nil {
+			return err
+		}
+
+		if _, ok := info.children[lowerCaseName]; ok {
+			return newConflictKeyError(fullName)
+		}
+
+		info.children[lowerCaseName] = elemField
 	default:
 		if _, ok := info.children[lowerCaseName]; ok {
 			return newConflictKeyError(fullName)
